@@ -17,6 +17,13 @@ CLAIMED = {
             "symbolic execution of the real update/reset of 14 detectors with z3: one inductive step from an arbitrary "
             "state (DDM, EDDM, STEPD, PageHinkley; unbounded parameters) and bounded histories with free numeric decisions "
             "(CUSUM, ADWIN, ADWINAccuracy, LFR, kdq-tree x2, HDDDM, CDBD, NNDVI, PCACD)"),
+    "C02": ("DESIGN.md 7/C02",
+            "library results are deterministic functions of their argument contents shared by detector and twin (seed "
+            "schedule); attributes existing only on the drifted detector are compared through later states; exact reals in "
+            "the S steps; representation invariants of C01",
+            "relational symbolic execution with z3: a drifted detector in an arbitrary state and a newly constructed twin "
+            "(plus documented carry-over) take the same symbolic input and their complete attribute dictionaries are proved "
+            "equal modulo the epoch offset; bounded histories with a twin started at every drift / injected set_reference"),
     "C03": ("DESIGN.md 7/C03",
             "cut decisions are free booleans in the structural runs (superset of real behaviour), the real _check_epsilon is "
             "tied to the documented formula by a separate lemma with uninterpreted log/sqrt; exact reals; ADWINAccuracy runs "
